@@ -60,6 +60,21 @@ NEEDS = {
  "C20-m1": ("visited mark set after the callback and skipped for empty results", "two contacted nodes naming the same closer node which answers with nothing", ""),
  "C20-m2": ("DHTGet seeds Closest on NumContacted==1", "the first contacted node fails", ""),
  "C20-m3": ("DHTPut updates Closest outside the accepted branch", "a farther responder answering while exactly one node has accepted", ""),
+ "C01-w4m1": ("fragswarm.Tell checks the payload against the configured MTU, not the capped MTU()", "configured MTU above 255 fragments' worth and a payload between the two limits", "reported by C09 (accepted-above-mtu); the C01 workload never sends above MTU()"),
+ "C04-w4m3": ("getFullAddr compares identities before WaitReady, only when a key is already known", "a stray datagram from the transport address created a channel entry before the Tell to a wrong identity", ""),
+ "C04-w4x": ("wlswarm.WrapSecureAsk returns the asker alone: Tell/Receive come from the unfiltered inner swarm", "the ask-capable whitelist wrapper and a rejected peer sending tells", "missed at first (the only whitelisted ask-capable stack in C04 sat on P2PKE, which enforces the same whitelist beneath); legs wl/mem and wl/mbapp/mem added"),
+ "C07-w4m1": ("a ready older session that swallows a handshake message ends the routing", "second handshake in the same role while an older session of that role is still held", ""),
+ "C07-w4m2": ("timer wrapper clears its pending flag after the callback, wiping the callback's own re-arm", "loss of the first InitHello or of RespDone, or two losses", ""),
+ "C07-w4m3": ("restarted initiator session keeps the ID of the abandoned hello", "expired initiator handshake, then crossing InitHellos with a particular hash order (1 in 3)", ""),
+ "C09-w4m1": ("mbapp collector takes the part size from the first part that arrives", "three or more parts, length not a multiple of the part size, short last part arriving first", ""),
+ "C09-w4m3": ("fragswarm Overhead constant smaller than the largest real header", "a per-peer message counter of 2^21 or more and a message of more than 128 full fragments", "NOT DETECTED: needs two million earlier messages to one peer; there is no seam to start the counter high, and no run reaches it"),
+ "C11-w4m3": ("quicswarm allocates the ask buffers once per session", "two asks from one peer overlapping in time", "missed at first (the Tier B workload was strictly sequential); bursts of overlapping asks with lingering handlers added; the interleaving does not replay, the driver reports Tier B replay agreement instead"),
+ "C12-w4m2": ("p2pkeswarm.Close purges the channels before its workers have ended", "Close racing with a first-contact InitHello inside a worker", "found by the thorough tier only at first (7 of 12000 runs); first contacts are now timed to land at Close and the quick tier runs 8000 runs"),
+ "C13-w4m1": ("AskHub.Deliver honours its context after the hand-over", "deliverer's context cancelled between rendezvous and end of the handler", ""),
+ "C13-w4m3": ("Queue.Receive re-checks the context after the select", "message available and receiver cancelled at the same instant", ""),
+ "C15-w4m1": ("string mux header built in a pooled buffer released too early", "two overlapping Tells on different channels", ""),
+ "C16-w4m1": ("udpswarm.Addr.String via net.UDPAddr prints IPv4-mapped addresses as IPv4", "an IPv4-mapped address", "missed at first: the text survives marshal-parse-marshal, only the VALUE changes; the oracle now also compares address values (reflect.DeepEqual of the original and the parsed address)"),
+ "C16-w4m3": ("multiswarm schema closures capture the loop variable (go 1.21 semantics)", "multiswarm over two transports with different address grammars", ""),
 }
 for d in sorted(glob.glob('/verif/seeded/*/')):
     sid = os.path.basename(d.rstrip('/'))
